@@ -91,7 +91,8 @@ def inBetween (lo x hi : Int) : Int :=
 /-- `ideal_num_threads(sieve_limit, threads, thread_threshold)` -/
 def idealNumThreads (sieveLimit threads threshold : Int) : Int :=
   let th := max 1 threshold
-  let maxThreads := Int.tdiv (sieveLimit + th - 1) th   -- ceil_div, C++ truncating division
+  -- overflow-free ceiling: sieve_limit / th + (sieve_limit % th > 0), C++ truncating division/remainder
+  let maxThreads := Int.tdiv sieveLimit th + (if Int.tmod sieveLimit th > 0 then 1 else 0)
   inBetween 1 threads maxThreads
 
 /-- `ilog2(x)` (x ≤ 0 treated as 1) -/
